@@ -89,7 +89,12 @@ class ParamsTrans:
         if not keep:
             del self.tape
         # print(grad)
-        grad = np.stack(grad).reshape((-1, len(self.vm.trainable_variables)))
+        if isinstance(vals, tf.Tensor):
+            # jacobian: one array of shape vals.shape per variable -> variables last
+            grad = np.stack(grad, axis=-1)
+        else:
+            grad = np.stack(grad)
+        grad = grad.reshape((-1, len(self.vm.trainable_variables)))
         # print(grad, self.err_matrix, np.dot(grad, self.err_matrix), grad.T)
         return np.dot(np.dot(grad, self.err_matrix), grad.T)
 
